@@ -22,6 +22,12 @@ MUTANTS = [
     ("c04_drop_old_on_serial", ["C04"], B, "                values.extend(old);\n", "                drop(old);\n"),
     ("c07_serial_not_exclusive", ["C07"], B, "        if is_serial_running || (is_serial_ready && running > 0) {", "        if false && (is_serial_running || (is_serial_ready && running > 0)) {"),
     ("c02_skip_continues", ["C02"], B, "                self.send_event(skipped(step));\n                Err(ExecutionFailure::StepSkipped(world))", "                self.send_event(skipped(step));\n                world.ok_or(ExecutionFailure::StepSkipped(None))"),
+    ("c12_left_ge_0", ["C12"], "/repo/src/writer/summarize.rs", "                        r.left > 0 && !matches!(err, event::StepError::NotFound)", "                        !matches!(err, event::StepError::NotFound)"),
+    ("c12_count_after_finished", ["C12"], "/repo/src/writer/summarize.rs", "        if matches!(self.state, State::InProgress) {\n            match event.as_deref() {", "        if true {\n            match event.as_deref() {"),
+    ("c13_fos_ignores_rule_tags", ["C13"], "/repo/src/writer/fail_on_skipped.rs", "                    .chain(rule.iter().flat_map(|r| &r.tags))\n                    .chain(&feat.tags)\n                    .any(|t| t == \"allow.skipped\")", "                    .chain(&feat.tags)\n                    .any(|t| t == \"allow.skipped\")"),
+    ("c13_repeat_before_finished", ["C13"], "/repo/src/writer/repeat.rs", "        self.writer.handle_event(event, cli).await;\n\n        if is_finished {\n            for ev in mem::take(&mut self.events) {\n                self.writer.handle_event(ev, cli).await;\n            }\n        }", "        if is_finished {\n            for ev in mem::take(&mut self.events) {\n                self.writer.handle_event(ev, cli).await;\n            }\n        }\n        self.writer.handle_event(event, cli).await;"),
+    ("c13_tee_min", ["C13"], "/repo/src/writer/tee.rs", "        cmp::max(self.left.failed_steps(), self.right.failed_steps())", "        cmp::min(self.left.failed_steps(), self.right.failed_steps())"),
+    ("c13_or_left_only", ["C13"], "/repo/src/writer/or.rs", "        self.left.skipped_steps() + self.right.skipped_steps()", "        self.left.skipped_steps()"),
     ("c04_idle_no_yield", ["C04"], B, "                yield_now().await;\n", ""),
 ]
 
